@@ -24,7 +24,8 @@ DQNorm(o, s) ==
   ELSE [o EXCEPT !.x = o.x % NPred]
 DQPre(o, s) ==
   /\ (o.op \in {"front", "back", "remove-front", "remove-back", "ref"} => s[o.v] # <<>>)
-  /\ (o.op \in {"append", "append3", "append-map"} => Len(s[o.v]) + Len(s[o.w]) <= 50 /\ Len(s[o.v]) <= 30)
+  /\ (o.op \in {"append", "append3"} => Len(s[o.v]) + Len(s[o.w]) <= 40)
+  /\ (o.op = "append-map" => Len(s[o.v]) <= 30)
 DQEval(o, s, M) ==
   LET A == s[o.v]  C == s[o.w]  n == Len(s[o.v])
       P(e) == Pred(o.x, o.k, e)
@@ -77,19 +78,19 @@ DQEval(o, s, M) ==
        [] Is("every") -> Res(<<>>, <<B(\A i \in DOMAIN A : P(A[i]))>>)
        [] Is("=") -> Res(<<>>, <<B(A = C)>>)
 DQLaws(s, live, M) ==
-  \A v \in live, w \in live :
-    LET A == s[v] C == s[w]
-        E(name, x, k) == DQEval(Op(name, v, w, k, x, <<>>), s, M)
-        N(name, x, k) == E(name, x, k).new
-    IN /\ \A x \in 0..Len(A) :
-            /\ N("take", x, 0)[1] \o N("drop", x, 0)[1] = A /\ N("drop-right", x, 0)[1] \o N("take-right", x, 0)[1] = A
-            /\ N("split-at", x, 0) = <<N("take", x, 0)[1], N("drop", x, 0)[1]>>
-            /\ Len(N("take-right", x, 0)[1]) = x
-       /\ \A x \in 0..(NPred - 1), k \in 0..(M - 1) :
-            /\ N("span", x, k)[1] \o N("span", x, k)[2] = A /\ N("break", x, k)[1] \o N("break", x, k)[2] = A
-            /\ N("take-while", x, k)[1] = N("span", x, k)[1] /\ N("drop-while", x, k)[1] = N("span", x, k)[2]
-            /\ N("drop-while-right", x, k)[1] \o N("take-while-right", x, k)[1] = A
-            /\ Len(N("filter", x, k)[1]) + Len(N("remove", x, k)[1]) = Len(A)
-            /\ E("count", x, k).obs = {<<Len(N("filter", x, k)[1])>>}
-       /\ N("reverse", 0, 0)[1] = Reverse(A) /\ Len(N("append", 0, 0)[1]) = Len(A) + Len(C)
+  /\ \A v \in live :
+       LET A == s[v]
+           E(name, x, k) == DQEval(Op(name, v, v, k, x, <<>>), s, M)
+           N(name, x, k) == E(name, x, k).new
+       IN /\ \A x \in 0..Len(A) : \A tk \in {N("take", x, 0)[1]}, dr \in {N("drop", x, 0)[1]} :
+               /\ tk \o dr = A /\ N("drop-right", x, 0)[1] \o N("take-right", x, 0)[1] = A
+               /\ N("split-at", x, 0) = <<tk, dr>> /\ Len(N("take-right", x, 0)[1]) = x
+          /\ \A x \in 0..(NPred - 1), k \in 0..(M - 1) : \A sp \in {N("span", x, k)}, br \in {N("break", x, k)}, fl \in {N("filter", x, k)[1]} :
+               /\ sp[1] \o sp[2] = A /\ br[1] \o br[2] = A
+               /\ N("take-while", x, k)[1] = sp[1] /\ N("drop-while", x, k)[1] = sp[2]
+               /\ N("drop-while-right", x, k)[1] \o N("take-while-right", x, k)[1] = A
+               /\ Len(fl) + Len(N("remove", x, k)[1]) = Len(A)
+               /\ E("count", x, k).obs = {<<Len(fl)>>}
+          /\ N("reverse", 0, 0)[1] = Reverse(A)
+  /\ \A v \in live, w \in live : Len(DQEval(Op("append", v, w, 0, 0, <<>>), s, M).new[1]) = Len(s[v]) + Len(s[w])
 =========================================================================
